@@ -4,6 +4,8 @@ Simulated dimension: seeded placement / move / move_to / remove histories over s
 injected rejected operations (out-of-bounds placement and move_to on every face, operations on agents
 that have left), against an exact arithmetic reference; containment is checked on every agent after
 every operation."""
+import math
+
 from ECAgent.Core import Agent, ComponentNotFoundError, Model
 from ECAgent.Environments import PositionComponent
 
@@ -20,13 +22,14 @@ RULE = ("world kind in {SpaceWorld, DiscreteWorld, LineWorld, GridWorld}, extent
         "signs); integers in grid worlds, dyadic k/8 in continuous worlds; non-trivial = >=2 agents in a non-cubic world "
         "and >=1 move crossing an edge; distinct = (kind, extents class, wrap, sequence of op kinds with accept/reject "
         "and edge-crossing flags)"
-        "; also: worlds that are not model.environment, wrap_env reassigned in mid-history, coordinates left to their documented defaults, model lifecycle ops, integer moves of 2**31..2**64 in grid worlds repeated on one axis, agents carrying own components incl. a PositionComponent subclass, agents that are environments themselves, stretches of the history issued from inside a running timestep, placements / removals spelled addAgent / removeAgent")
+        "; also: worlds that are not model.environment, wrap_env reassigned in mid-history, coordinates left to their documented defaults, model lifecycle ops, integer moves of 2**31..2**64 in grid worlds repeated on one axis, agents carrying own components incl. a PositionComponent subclass, agents that are environments themselves, stretches of the history issued from inside a running timestep, placements / removals spelled addAgent / removeAgent, coordinates one ulp outside a continuous world")
 COMPONENTS = {"real": ["ECAgent.Environments.SpaceWorld.add_agent / remove_agent / move / move_to", "DiscreteWorld / LineWorld / "
                        "GridWorld constructors", "PositionComponent"],
               "stub": ["agents are plain ECAgent agents created by the harness"]}
 PROBES = ["multi_lap_wrap", "negative_wrap", "clamp_both_sides_one_move", "placement_on_hi", "zero_extent_axis",
           "reject.oob", "reject.move_to_oob", "reject.no_position", "move_to_accepted", "continuous_world", "grid_world", "model_lifecycle_op", "wrap_mode_switched", "defaults_used_for_omitted_coordinates", "huge_integer_move_in_grid",
-          "agent_with_position_subclass_component", "agent_is_an_environment", "ops_from_inside_a_timestep", "deprecated_camelcase_spelling"]
+          "agent_with_position_subclass_component", "agent_is_an_environment", "ops_from_inside_a_timestep", "deprecated_camelcase_spelling",
+          "one_ulp_outside_a_continuous_world"]
 TECHNIQUE = "deterministic simulation: seeded placement/move histories with injected rejected operations vs an exact (dyadic) arithmetic reference, containment invariant after every op"
 LEVEL_TEXT = ("Seeded search over world configurations and move histories; after every operation every resident agent's "
               "coordinates must equal the exact reference (modular in wrapping worlds, saturating otherwise) and lie inside "
@@ -90,6 +93,9 @@ def generate(rng, tier):
         j_ = rng.randint(i_ + 1, len(ops))
         ops.insert(j_, {"op": "leave_step"})
         ops.insert(i_, {"op": "enter_step"})
+    for o_ in ops:
+        if o_.get("op") in ("add", "move_to") and rng.random() < 0.05:
+            o_["ulp"] = [rng.randrange(3), rng.choice(["hi", "hi", "lo"])]
     extras = gen_extras(rng, n, lambda ax: rng.randint(0, max(ref.hi(ax), 0)) if ref.positive(ax) else 0)
     return {"world": world, "n": n, "ops": ops, "extras": extras}
 
@@ -116,6 +122,17 @@ def execute(sc, ctx):
     if any(not ref.positive(ax) for ax in range(3)):
         ctx.probe("zero_extent_axis")
     cubic = len({e for e in ref.ext if e > 0}) <= 1 and sum(1 for e in ref.ext if e > 0) > 1
+
+    def ulp_off(rp_, u):
+        """The same request with one coordinate of a positive-extent axis a single ulp OUTSIDE the world: still outside."""
+        axes = [ax_ for ax_ in range(3) if ref.positive(ax_)]
+        if not axes:
+            return rp_, True
+        ax_ = axes[int(u[0]) % len(axes)]
+        out = list(rp_)
+        out[ax_] = math.nextafter(ref.real([ref.hi(ax_)] * 3)[0], math.inf) if u[1] == "hi" else math.nextafter(0.0, -math.inf)
+        ctx.probe("one_ulp_outside_a_continuous_world")
+        return tuple(out), False
 
     def snapshot():
         return [[a.id for a in env], [(i, get_pos(agents[i])) for i in range(n)], [sorted(map(str, a.components)) for a in agents]]
@@ -161,7 +178,10 @@ def execute(sc, ctx):
             if op.get("camel") and ref.inside([0, 0, 0]):
                 p = [0, 0, 0]            # addAgent(agent): the deprecated spelling places at the documented default
             rp = ref.real(p)
-            if ref.inside(p):
+            inside = ref.inside(p)
+            if op.get("ulp") and sc["world"]["kind"] == "space" and inside and not op.get("camel"):
+                rp, inside = ulp_off(rp, op["ulp"])
+            if inside:
                 if op.get("camel") and p == [0, 0, 0]:
                     ctx.probe("deprecated_camelcase_spelling")
                     ctx.expect_ok("add", env.addAgent, a)
@@ -225,13 +245,16 @@ def execute(sc, ctx):
         elif kind == "move_to":
             p = [int(c) for c in op["p"]]
             rp = ref.real(p)
+            inside = ref.inside(p)
+            if op.get("ulp") and sc["world"]["kind"] == "space" and ref.inside(p):
+                rp, inside = ulp_off(rp, op["ulp"])
             if k not in pos:
                 before = snapshot()
                 ctx.fault("reject.no_position")
                 ctx.expect_raises("move_to-without-position", ComponentNotFoundError, env.move_to, a, *rp)
                 ctx.check(snapshot() == before, "rejected-move_to-changed-state", f"a{k}")
                 shape.append(["move_to", "nopos"])
-            elif ref.inside(p):
+            elif inside:
                 ctx.expect_ok("move_to", env.move_to, a, *sparse(rp, op.get("sparse")))
                 if op.get("sparse"):
                     ctx.probe("defaults_used_for_omitted_coordinates")
